@@ -132,6 +132,15 @@ def _shape(clause: str, rec) -> str:
         mode = ":pre" if k == 1 else ":nopre"                              # (the recorded finding concerns the prefixed forms only)
     if op in (0xC0, 0xC1, 0xC2) and rec.get("ptrwrite"):
         mode += ":ptrwrite"          # an exchange that overwrites BP / PX / PY while the other operand is addressed through them
+    # block moves between two internal-memory operands: can the two ranges overlap under ANY addressing calculation of the operand
+    # bytes?  (the recorded finding - Rust writes the first destination byte once more at the end - only shows when they do)
+    if op in (0xCB, 0xCF) and rec.get("walk"):
+        i_, bp, px, py = rec["walk"]
+        span = max(1, i_ or 1)
+        def cands(n):
+            return {n & 0xFF, (bp + n) & 0xFF, (px + n) & 0xFF, (py + n) & 0xFF, (bp + px) & 0xFF, (bp + py) & 0xFF}
+        if any(min((a - c) & 0xFF, (c - a) & 0xFF) < span for a in cands(b[k + 1]) for c in cands(b[k + 2])):
+            mode += ":overlap"
     # instructions that walk an internal-memory operand downwards (DSRL: upwards): can the walk pass the end of the internal memory
     # under ANY addressing calculation of its operand bytes?  The recorded finding is about exactly that situation (tag edge).
     if op in (0xC4, 0xC5, 0xD4, 0xD5, 0xCF, 0xEC, 0xFC) and rec.get("walk"):
@@ -143,6 +152,8 @@ def _shape(clause: str, rec) -> str:
         cands |= {(bp + px) & 0xFF, (bp + py) & 0xFF}
         if any((c + span > 0xFF) if op == 0xFC else (c - span < 0) for c in cands):
             mode += ":edge"
+    if op in (0x56, 0x5E, 0xF3, 0xFB, 0xC3) and rec.get("walk"):
+        mode += ":i1" if rec["walk"][0] == 1 else ":iN"       # counted instructions: a single iteration, or more
     return f"op{op:02X}" + mode + (":absbits" if _abs_hi(b, k, op) else "") + (":fhigh" if rec.get("seed", 0) < 0 else "") + (":block" if rec.get("seed", 0) >= BLOCK else "")
 
 
